@@ -78,7 +78,46 @@ def _ids(rng):
     return sorted(rng.sample(range(1, 60), k))
 
 
+STMT_KINDS = ["add-const", "mul-const", "add-sym", "mul-sym", "piecewise", "fresh-then-combine"]
+
+
+def gen_hist(rng, targets, pnone=0.45, maxlen=3, avoid_cov=None, exclude=()):
+    """A history of earlier re-assignments of the symbols the extension will act on: covariate effects with either
+    operation and direct re-assignments (additive, multiplicative, piecewise, via an intermediate symbol)."""
+    if rng.random() < pnone:
+        return []
+    out = []
+    for _ in range(rng.randint(1, maxlen)):
+        t = rng.choice(targets)
+        if t in PARAMS and rng.random() < 0.5:
+            step = ["cov", t, rng.choice([c for c in COVS if c != avoid_cov]), rng.choice(EFFECTS), rng.choice(["*", "+", "+"])]
+        else:
+            step = ["stmt", t, rng.choice([k for k in STMT_KINDS if k not in exclude])]
+        # the same re-assignment twice would give two *identical* statements (add_covariate_effect locates its insertion
+        # point with list.index(), i.e. at the first of two equal statements: noted in notes/C09.md, not generated)
+        if step[:3] not in [o[:3] for o in out]:
+            out.append(step)
+    return out
+
+
 def gen_case(rng: random.Random):
+    c = _gen_case(rng)
+    k = c["kind"]
+    if k == "coveff":
+        c["hist"] = gen_hist(rng, [c["param"]], avoid_cov=c["cov"])
+    elif k == "iiv":
+        # (add_iiv substitutes the old right-hand side into the template; NONMEM code cannot hold a piecewise inside it)
+        c["hist"] = gen_hist(rng, [c["param"]], exclude=("piecewise",))
+    elif k in ("iov", "etatrans"):
+        c["hist"] = gen_hist(rng, PARAMS)
+    elif k == "allometry":
+        c["hist"] = gen_hist(rng, c["params"] or PARAMS, pnone=0.25)
+    elif k == "error":
+        c["hist"] = gen_hist(rng, ["F"], pnone=0.6, maxlen=2, exclude=("piecewise",))   # has_proportional_error_model takes any piecewise for IPREDADJ (AttributeError), see notes
+    return c
+
+
+def _gen_case(rng: random.Random):
     r = rng.random()
     c = {"ids": _ids(rng), "seed": rng.randrange(1 << 30)}
     if r < 0.30:
@@ -156,6 +195,14 @@ def corpus_cases():
         {"kind": "errordv", "ids": None, "seed": 23, "setter": "combined", "how": "dvid", "zp": True},
         {"kind": "errordv", "ids": None, "seed": 24, "setter": "additive", "how": "name", "zp": True},
         {"kind": "allometry", "ids": None, "seed": 11, "var": "WGT", "ref": 70, "params": None, "nocov": True},
+        # extensions applied after histories that re-assign the target: they must act on the FINAL value of the parameter
+        {"kind": "allometry", "ids": None, "seed": 25, "var": "WGT", "ref": 70, "params": ["CL"], "nocov": True,
+         "hist": [["cov", "CL", "APGR", "lin", "+"]]},
+        {"kind": "allometry", "ids": None, "seed": 26, "var": "APGR", "ref": 7, "params": ["CL", "VC"], "nocov": False,
+         "hist": [["stmt", "VC", "piecewise"], ["stmt", "CL", "fresh-then-combine"]]},
+        {"kind": "iiv", "ids": None, "seed": 27, "param": "CL", "form": "prop", "op": "*", "hist": [["stmt", "CL", "add-sym"]]},
+        {"kind": "coveff", "ids": None, "seed": 28, "param": "VC", "cov": "WGT", "effect": "exp", "op": "*", "first": None,
+         "hist": [["stmt", "VC", "add-const"], ["cov", "VC", "FA1", "lin", "+"]]},
         {"kind": "transit", "ids": None, "seed": 12, "base": "pheno", "ns": [2, 4, 3], "keep_depot": True},
         {"kind": "transit", "ids": None, "seed": 13, "base": "fo", "ns": [3, 1], "keep_depot": True},
         # reducing to a single transit without depot leaves the rate 5/MDT
@@ -175,6 +222,11 @@ def shrink(case):
     if case.get("first"):
         c = dict(case)
         c["first"] = None
+        yield c
+    h = case.get("hist") or []
+    for i in range(len(h)):
+        c = dict(case)
+        c["hist"] = h[:i] + h[i + 1:]
         yield c
     if case.get("kind") == "transit" and len(case["ns"]) > 1:
         for i in range(len(case["ns"])):
@@ -210,6 +262,43 @@ def pheno(ids):
 
 def S(name):
     return sympy.Symbol(name)
+
+
+def apply_history(m, hist, tags):
+    """Earlier re-assignments of the target symbols, made with real pharmpy calls / by inserting statements right after
+    the current last assignment of the symbol (what a user editing the model code does)."""
+    from pharmpy.basic import Expr
+    from pharmpy.model import Assignment
+    for step in hist or []:
+        try:
+            if step[0] == "cov":
+                _, P, cov, eff, op = step
+                m = pm.add_covariate_effect(m, P, cov, eff, op, allow_nested=True)
+                tags.append(f"hist:cov{op}")
+            else:
+                _, T, kind = step
+                sset = m.statements
+                idx = sset.find_assignment_index(T)
+                if idx is None:
+                    tags.append("hist:no-such-symbol")
+                    continue
+                t = Expr.symbol(T)
+                aux = Expr.symbol(f"H{T}{len(sset)}")
+                new = {
+                    "add-const": [Assignment.create(t, t + Expr(3) / Expr(2))],
+                    "mul-const": [Assignment.create(t, t * 2)],
+                    "add-sym": [Assignment.create(t, t + Expr.symbol("FA2") + 1)],
+                    "mul-sym": [Assignment.create(t, t * (Expr.symbol("FA1") + 2))],
+                    "piecewise": [Assignment.create(t, Expr.piecewise((t + 2, sympy.Gt(sympy.Symbol("FA2"), 0)), (t * 3, True)))],
+                    "fresh-then-combine": [Assignment.create(aux, t * 2 + 1), Assignment.create(t, aux + t)],
+                }[kind]
+                for j, st in enumerate(new):
+                    sset = sset[0:idx + 1 + j] + st + sset[idx + 1 + j:]
+                m = m.replace(statements=sset).update_source()
+                tags.append(f"hist:{kind}")
+        except Exception as e:      # a step the real code refuses is left out; the extension itself is what is checked
+            tags.append(f"hist-step-refused:{step[0]}")
+    return m
 
 
 def full(model, name, part="before"):
@@ -334,6 +423,7 @@ def run_coveff(case, drv, rng, k, mon, tags):
                 tags.append("nested-on-earlier-effect")
             except Exception:
                 tags.append("first-effect-refused")
+    m = apply_history(m, case.get("hist"), tags)
     rows = U.records(m.dataset, ["ID", COV])
     med = U.ref_median(rows, "ID", COV)
     lo, hi = U.ref_minmax(rows, COV)
@@ -345,7 +435,11 @@ def run_coveff(case, drv, rng, k, mon, tags):
         if eff == "piece_lin" and "Median cannot be same as min or max" in str(e) and (med == lo or med == hi):
             tags.append("refused:piece_lin-median-at-extreme")
             return False
-        mon.append({"cls": "coveff-internal-error", "what": f"add_covariate_effect({P},{COV},{eff},{op}) raised "
+        last = m.statements.find_assignment(P)
+        cls = "coveff-internal-error"
+        if isinstance(e, TypeError) and "unhashable" in str(e) and last is not None and last.expression.is_piecewise():
+            cls = "coveff-last-assignment-piecewise-internal-error"
+        mon.append({"cls": cls, "what": f"add_covariate_effect({P},{COV},{eff},{op}) with {P} = {last.expression if last else None} raised "
                     f"{type(e).__name__}: {e}"})
         return False
     # ---- K
@@ -399,7 +493,9 @@ def run_coveff(case, drv, rng, k, mon, tags):
         check_equal(mon, cls, f"{P} with {eff} effect of {COV} (operation {op}) at the reference value {COV}={ref} vs "
                     f"{P} before", p_new, p_old, rng, {COV: ref}, npoints=2)
     # (d) remove restores
-    if not pm.has_covariate_effect(m, P, COV):
+    if case.get("hist"):
+        tags.append("remove-skipped:history")       # the remove_* heuristics are exercised on un-reassigned parameters only
+    elif not pm.has_covariate_effect(m, P, COV):
         try:
             m3 = pm.remove_covariate_effect(m2, P, COV)
             p_rm = full(m3, P)
@@ -416,6 +512,7 @@ def run_iiv(case, drv, rng, k, mon, tags):
     P, form, op = case["param"], case["form"], case["op"]
     if P in ("CL", "VC"):
         m = pm.remove_iiv(m, P)
+    m = apply_history(m, case.get("hist"), tags)
     tags += [f"iiv:{form}", f"op:{op}", f"iivparam:{P}"]
     st = m.statements.find_assignment(P)
     eta = f"ETA_{P}"
@@ -453,7 +550,10 @@ def run_iiv(case, drv, rng, k, mon, tags):
         neutral_cls = "iiv-additive-exp-not-neutral-at-eta-zero"
     check_equal(mon, neutral_cls or "iiv-not-neutral-at-eta-zero", f"{P} with {form} IIV (operation {op}) at {eta}=0 vs {P} before",
                 p_new, p_old, rng, {eta: sympy.Integer(0)}, npoints=2)
-    # remove restores
+    # remove restores (on parameters without earlier re-assignments: remove_iiv's reassign() deletes earlier assignments)
+    if case.get("hist"):
+        tags.append("remove-skipped:history")
+        return True
     try:
         m3 = pm.remove_iiv(m2, eta)
         p_rm = full(m3, P)
@@ -498,11 +598,15 @@ def iov_shift_check(mon, rng, m_old, m_new, occ, cats, etas, label):
 def run_iov(case, drv, rng, k, mon, tags):
     m = pheno(case["ids"])
     occ, params, dist = case["occ"], case["params"], case["dist"]
+    m = apply_history(m, case.get("hist"), tags)
     rows = U.records(m.dataset, ["ID", occ])
     cats = sorted({int(r[occ]) for r in rows})
     tags += [f"iov:{dist}", f"occ:{occ}", f"nocc={min(len(cats), 12)}"]
     try:
-        m2 = pm.add_iov(m, occ, params, distribution=dist)
+        # with a history the etas are named directly: _get_etas() by parameter name only looks at the last assignment
+        # of the parameter (CL = CL + CLAPGR mentions no eta), see notes/C09.md
+        callp = [f"ETA_{p}" for p in params] if (params and case.get("hist")) else params
+        m2 = pm.add_iov(m, occ, callp, distribution=dist)
     except ValueError as e:
         if len(cats) == 1 and "Only one value" in str(e):
             tags.append("refused:one-occasion")
@@ -568,6 +672,7 @@ def run_iov(case, drv, rng, k, mon, tags):
 def run_etatrans(case, drv, rng, k, mon, tags):
     m = pheno(case["ids"])
     kind, etas = case["trans"], case["etas"]
+    m = apply_history(m, case.get("hist"), tags)
     fn = {"boxcox": pm.transform_etas_boxcox, "tdist": pm.transform_etas_tdist, "johndraper": pm.transform_etas_john_draper}[kind]
     tags += [f"etatrans:{kind}", f"netas={len(etas) if etas else 2}"]
     try:
@@ -628,7 +733,7 @@ def eps_in(model, y):
 
 def run_error(case, drv, rng, k, mon, tags):
     base, setter, log, zp = case["base"], case["setter"], case["log"], case["zp"]
-    m = error_base(base, case["ids"])
+    m = apply_history(error_base(base, case["ids"]), case.get("hist"), tags)
     tags += [f"error:{setter}", f"errbase:{base}"]
     y_old = y_of(m)
     eps_old = eps_in(m, y_old)
@@ -866,7 +971,7 @@ def run_ruvmod(case, drv, rng, k, mon, tags):
     untouched when a DV is named, and the extension is neutral at eta = 0."""
     import itertools
     base, fn = case["base"], case["fn"]
-    m = ruv_base(base, case["ids"])
+    m = apply_history(ruv_base(base, case["ids"]), case.get("hist"), tags)
     dvs = [(str(sym), int(i)) for sym, i in m.dependent_variables.items()]
     eps_model = list(m.random_variables.epsilons.names)
     which = case["dv"]
@@ -1140,6 +1245,7 @@ def run_allometry(case, drv, rng, k, mon, tags):
     if case["nocov"]:
         m = pm.remove_covariate_effect(pm.remove_covariate_effect(m, "CL", "WGT"), "V", "WGT")
         tags.append("allometry:wgt-effects-removed")
+    m = apply_history(m, case.get("hist"), tags)
     tags += [f"allometry:{var}"]
     try:
         m2 = pm.add_allometry(m, allometric_variable=var, reference_value=ref, parameters=params)
